@@ -23,7 +23,7 @@ class Cfg:
 
     def __init__(self, fam='simple', T=2, ne=False, sym_maxdist=True, sym_init=True, sym_minprob=True,
                  width=None, noise=1.0, noise_ne=None, goingback=False, nelf=0.75, sym_nelf=False,
-                 self_listed=True, linked=None):
+                 self_listed=True, linked=None, order=None):
         self.fam = fam                  # 'simple' (edges), 'simple_n' (nodes+edges), 'dist'
         self.T = T
         self.ne = ne
@@ -37,7 +37,11 @@ class Cfg:
         self.nelf = nelf
         self.sym_nelf = sym_nelf
         self.self_listed = self_listed
+        # linked parallel edges: dict {edge: [edges]} or JSON-friendly list [[edge, [edges]], ...]
+        if isinstance(linked, (list, tuple)):
+            linked = {tuple(k): [tuple(e) for e in v] for k, v in linked}
         self.linked = linked
+        self.order = order
 
     @property
     def only_edges(self):
